@@ -110,18 +110,12 @@ func (fsm *FSM) GetFSMInstance(dkgRoundID string, createIfMissing bool) (*state_
 		if !createIfMissing {
 			return nil, fmt.Errorf("no FSM instance found for the given dkgID %s", dkgRoundID)
 		}
+		// The new instance is not persisted here: callers save the round once
+		// a message has been accepted for it. Persisting it right away left an
+		// empty round behind for every rejected message with an unknown id.
 		fsmInstance, err = state_machines.Create(dkgRoundID)
 		if err != nil {
 			return nil, fmt.Errorf("failed to create FSM instance: %w", err)
-		}
-
-		bz, err := fsmInstance.Dump()
-		if err != nil {
-			return nil, fmt.Errorf("failed to Dump FSM instance: %w", err)
-		}
-
-		if err := fsm.SaveFSM(dkgRoundID, bz); err != nil {
-			return nil, fmt.Errorf("failed to SaveFSM: %w", err)
 		}
 	}
 
